@@ -43,6 +43,8 @@ def rule_r1(rep, program: Program):
             except AnalysisError:
                 a = None
             r.inst({"derivation": norm(c.elt), "jump argument": repr(arg)})
+            if a is not None and (arg.symbols() - {var}):
+                r.violate(PROP, f"_get_per_chain_rngs:jump-depends-on:{sorted(arg.symbols() - {var})}", f"the jump count `{norm(jumps[0].args[0])}` depends on {sorted(arg.symbols() - {var})}: the stream of a chain then depends on how many other chains are run", node=jumps[0], file=f.file)
             if a is None or a.is_zero():
                 r.violate(PROP, f"_get_per_chain_rngs:jumped({norm(jumps[0].args[0]) if jumps[0].args else ''})", f"the jump count `{norm(jumps[0].args[0]) if jumps[0].args else '1'}` does not depend (linearly, injectively) on the chain index `{var}`: several chains share one random stream", node=jumps[0], file=f.file)
             # the object jumped must be the base bit generator (not an already derived one)
